@@ -2843,6 +2843,12 @@ func (db *DB) importToLTX(ctx context.Context, r io.Reader) (ltx.Pos, error) {
 		return ltx.Pos{}, fmt.Errorf("read database header: %w", err)
 	}
 
+	// An existing database cannot change its page size: the apply would fail
+	// half way through and the LTX file would be applied again on every restart.
+	if db.pageSize != 0 && hdr.PageSize != db.pageSize {
+		return ltx.Pos{}, fmt.Errorf("cannot import database with page size %d into database with page size %d", hdr.PageSize, db.pageSize)
+	}
+
 	// Prepend header back onto original reader.
 	r = io.MultiReader(bytes.NewReader(data), r)
 
